@@ -474,6 +474,21 @@ def main(argv):
                 return 1
             print('%s replay %s: property holds on this case' % (mod.ID, a.replay))
             return 0
+        # committed replays (reproducers of repaired findings) first: a seconds-long regression tier
+        rdir = os.path.join(VERIF, 'replays', mod.ID)
+        if os.path.isdir(rdir):
+            for fn in sorted(os.listdir(rdir)):
+                if not (fn.startswith('finding-') and fn.endswith('.json')):
+                    continue
+                with open(os.path.join(rdir, fn)) as f:
+                    data = json.load(f)
+                try:
+                    mod.replay(ctx, data)
+                    ctx.evaluations += 1
+                    ctx.counters['committed-replays'] = ctx.counters.get('committed-replays', 0) + 1
+                except Violation as v:
+                    ctx.failures.append({'facet': 'regression:' + str(v.facet), 'detail': '%s: %s' % (fn, v.detail),
+                                         'case': data.get('case'), 'extra': None, 'search': data.get('search')})
         mod.run(ctx)
         return ctx.finish()
     except HarnessError as e:
